@@ -110,6 +110,19 @@ def run(ck):
                               "replay": "write the file, then echo 'x hist <ops joined by ; with , between fields>' | harness/drv.cpp built with the flags above against /repo"})
                 break
     dist["sequence-on-one-unchanged-file"] = len(hl)
+    # tag comparisons under the right key and under wrong keys AT THE SAME TIME from several threads of one process: a wrong key
+    # must be refused whatever another thread is computing (key material kept in storage shared between calls)
+    import hmac as pyhmac, hashlib
+    PYH = {0: hashlib.sha1, 1: hashlib.md5, 2: hashlib.sha256}
+    pl = []
+    for i in range(24):
+        hm = i // 4 % 3
+        k = rnd_bytes(r, 16)
+        m = rnd_bytes(r, r.choice([10, 64, 100, 200]))
+        tag = pyhmac.new(k, m, PYH[hm]).digest()
+        k2 = bytearray(k); k2[r.randrange(16)] ^= 1 << r.randrange(8)
+        pl.append("cmph %d %d %s %s %s" % (HBUF, hm, (k if i % 2 == 0 else bytes(k2)).hex(), m.hex(), tag.hex()))
+    parallel_purity(ck, exe, pl, "tag comparisons under right and wrong keys", iters=200, env=env)
     ck.cov["distinct_nontrivial"] = len(distinct)
     ck.cov["files"] = len(files)
     ck.cov["disagreements_model_vs_impl"] = corr
